@@ -306,7 +306,7 @@ func searchCases(seed uint64, round, n, total int) []tcase {
 // stage-2 targets that have a Gallina model (C16ParseModel.v ...): `corr` feeds them the SAME hostile
 // generators as the search and compares outcome class and projected values with the extracted model
 var stage2Modelled = []string{"avc.ParseSPSNALUnit", "avc.ParsePPSNALUnit", "avc.ParseSliceHeader", "avc.ParsePSAndSlice",
-	"avc.GetSliceTypeFromNALU",
+	"avc.GetSliceTypeFromNALU", "avc.ParseSEINalu", "hevc.ParseSEINalu",
 	// models of C17 / C18 / C14 through the partial-operation wrappers of C16AuxModel.v
 	"sei.ExtractSEIData", "sei.DecodeTimeCodeSEI", "sei.DecodePicTimingAvcSEIHRD",
 	"sei.DecodeMasteringDisplayColourVolumeSEI", "sei.DecodeContentLightLevelInformationSEI",
